@@ -149,6 +149,7 @@ FieldMutations(m, x) ==
 
 TypeMutations(m, x) ==
     { MChg(m, x, "Text", EmptyDict, None),
+      MChg(m, x, "Text", D1("null", FALSE), "i"),     \* re-type and make non-null, with an initial value
       MChg(m, x, "Char", D1("max_length", 20), None) }
 
 ModelMutations(m) ==
